@@ -2,6 +2,7 @@
   C15 — verbose is inert (recogniser level).  Property statements only.
 -/
 import XonshVerif.Proofs.PegVerbose
+import XonshVerif.Proofs.PegGate
 namespace XV.Peg
 variable {prog : Prog}
 
@@ -69,5 +70,71 @@ def lrW : Array RTok := #[{ ty := .NAME, strId := 3, isKw := false, isSoft := fa
 example : (parse lrProg lrW 30 1 false).2.1.resets ≠ (parse lrProg lrW 30 1 true).2.1.resets := by decide +kernel
 example : (parse lrProg lrW 30 1 false).1 = .invalidSyntax 1 := by decide +kernel
 example : (parse lrProg lrW 30 1 true).1 = .invalidSyntax 1 := by decide +kernel
+
+
+/-! ## py_version: gating is monotone -/
+
+/-- **py_version_monotone.**  `gateProg v prog` is the program `Parser.parse` runs when the effective `py_version` is
+    (3, v): every `self.check_version((3, m), ..)` action succeeds if m <= v and raises its SyntaxError otherwise.
+    For every program, token list, fuel, start rule, verbosity and v <= v': the run under the lower version either raised
+    a SyntaxError, or its complete result (outcome, first-pass result, final states of both passes: positions, cache,
+    tokens fetched, alternatives fired, call counts) is identical to the run under the higher version.  So lowering the
+    version can only turn a result into a raised error, never into a different tree or a different generic error. -/
+theorem py_version_monotone (prog : Prog) (w : Array RTok) (fuel start : Nat) (verbose : Bool) (v v' : Nat) (h : v ≤ v') :
+    (parse (gateProg v prog) w fuel start verbose).1 = .raised ∨
+      parse (gateProg v prog) w fuel start verbose = parse (gateProg v' prog) w fuel start verbose :=
+  parse_gate_mono prog w fuel start verbose v v' h
+
+/-- the thresholds of all version gates of a program -/
+def altGates (a : Alt) : List Nat := match a.act with | .gate m => [m] | _ => []
+def ruleGates (r : Rule) : List Nat := match r.body with | .alts as _ _ => as.flatMap altGates | _ => []
+def progGates (prog : Prog) : List Nat := prog.toList.flatMap ruleGates
+
+/-- **at or above every threshold the grammar contains the version is irrelevant**: the resolved programs are equal, so
+    every result is. -/
+theorem py_version_irrelevant_above_all_gates (prog : Prog) (v v' : Nat) (hv : ∀ m ∈ progGates prog, m ≤ v) (hv' : ∀ m ∈ progGates prog, m ≤ v') :
+    gateProg v prog = gateProg v' prog := by
+  unfold gateProg
+  apply Array.ext
+  · simp
+  · intro i h1 h2
+    simp only [Array.getElem_map]
+    have hmem : prog[i]'(by simpa using h1) ∈ prog.toList := by simp [Array.getElem_mem]
+    generalize prog[i]'(by simpa using h1) = r at hmem
+    unfold gateRule gateBody
+    cases hb : r.body with
+    | alts as wo ul =>
+      simp only [Rule.mk.injEq, Body.alts.injEq, and_true, true_and]
+      apply List.map_congr_left
+      intro a ha
+      apply gateAlt_saturated
+      intro m hm
+      have : m ∈ progGates prog := by
+        unfold progGates
+        rw [List.mem_flatMap]
+        refine ⟨r, hmem, ?_⟩
+        unfold ruleGates; rw [hb]
+        rw [List.mem_flatMap]
+        exact ⟨a, ha, by unfold altGates; rw [hm]; simp⟩
+      exact ⟨hv m this, hv' m this⟩
+    | seqAlts ps => rfl
+    | unmodelled => rfl
+
+/-! Non-vacuity: rule 0 `S: 'type' NAME {gate 12} | NAME`.  On `type x` the version matters (raised below 12, a tree from
+    12 on); on `x` it does not. -/
+def gProg : Prog := #[
+  { deco := .none, body := .alts [
+      { items := [⟨.call (.expect 7), false⟩, ⟨.call .name, false⟩], act := .gate 12, cut := false },
+      { items := [⟨.call .name, false⟩], act := .truthy, cut := false }] false false }]
+def gTokType : RTok := { ty := .NAME, strId := 7, isKw := true, isSoft := false }
+def gTokX : RTok := { ty := .NAME, strId := 1, isKw := false, isSoft := false }
+def gTokEnd : RTok := { ty := .ENDMARKER, strId := 0, isKw := false, isSoft := false }
+def gW1 : Array RTok := #[gTokType, gTokX, gTokEnd]
+def gW2 : Array RTok := #[gTokX, gTokEnd]
+
+example : (parse (gateProg 11 gProg) gW1 20 0 false).1 = .raised := by decide +kernel
+example : (parse (gateProg 12 gProg) gW1 20 0 false).1 = .tree := by decide +kernel
+example : (parse (gateProg 8 gProg) gW2 20 0 false).1 = .tree ∧ (parse (gateProg 13 gProg) gW2 20 0 false).1 = .tree := by decide +kernel
+example : progGates gProg = [12] := by decide
 
 end XV.Peg
